@@ -12,7 +12,9 @@ use gecs::prelude::*;
 pub const MOD: u64 = 251;
 
 #[derive(Default)]
-pub struct Ctx {
+pub struct Ctx<'h> {
+    /// called at the end of every closure call, while the call's arguments are still held
+    pub hook: Option<&'h mut dyn FnMut()>,
     pub calls: Vec<String>,
     cur: Vec<String>,
     pub n: usize,
@@ -44,7 +46,7 @@ pub fn fmt_dir(d: EntityDirectAny) -> String {
     format!("{}.{}", k, v)
 }
 
-impl Ctx {
+impl<'h> Ctx<'h> {
     pub fn begin(&mut self) {
         self.cur.clear();
     }
@@ -72,6 +74,9 @@ impl Ctx {
         self.calls.push(self.cur.join(","));
         let k = self.n;
         self.n += 1;
+        if let Some(h) = self.hook.as_mut() {
+            (*h)();
+        }
         if self.pan == Some(k) {
             panic!("injected closure fault");
         }
